@@ -1,13 +1,14 @@
 #!/bin/bash
 # setup_cmd: offline build of the framework from files on disk only.
 set -e
-export CARGO_NET_OFFLINE=true CARGO_TARGET_DIR=/verif/target
-export GMP_MPFR_SYS_CACHE=/verif/.cache/gmp-mpfr-sys
-mkdir -p /verif/target /verif/evidence /verif/replays
-cd /verif/engine
+VERIF=$(cd "$(dirname "$0")/.." && pwd)
+export CARGO_NET_OFFLINE=true CARGO_TARGET_DIR=$VERIF/target
+export GMP_MPFR_SYS_CACHE=$VERIF/.cache/gmp-mpfr-sys
+mkdir -p $VERIF/target $VERIF/evidence $VERIF/replays
+cd $VERIF/engine
 cargo build --release --offline -p zkmc 2>&1 | tail -3
-if [ -f /verif/scripts/gmp_bootstrap.sh ]; then
-  if [ ! -f $GMP_MPFR_SYS_CACHE/1.7/x86_64-unknown-linux-gnu/1.7.1/libgmp.a ]; then bash /verif/scripts/gmp_bootstrap.sh > /verif/target/gmp_bootstrap.log 2>&1 || { echo "GMP bootstrap failed"; tail -20 /verif/target/gmp_bootstrap.log; exit 1; }; fi
-  if [ -f /verif/engine/clmc/src/main.rs ] && grep -q "fn main" /verif/engine/clmc/src/main.rs; then cargo build --release --offline -p clmc 2>&1 | tail -3; fi
+if [ -f $VERIF/scripts/gmp_bootstrap.sh ]; then
+  if [ ! -f $GMP_MPFR_SYS_CACHE/1.7/x86_64-unknown-linux-gnu/1.7.1/libgmp.a ]; then bash $VERIF/scripts/gmp_bootstrap.sh > $VERIF/target/gmp_bootstrap.log 2>&1 || { echo "GMP bootstrap failed"; tail -20 $VERIF/target/gmp_bootstrap.log; exit 1; }; fi
+  if [ -f $VERIF/engine/clmc/src/main.rs ] && grep -q "fn main" $VERIF/engine/clmc/src/main.rs; then cargo build --release --offline -p clmc 2>&1 | tail -3; fi
 fi
 echo setup done
